@@ -521,6 +521,8 @@ def search_sphinx(ctx):
                 reported.add("cfg")
                 ctx.fail("sphinx:global-config-mutated", {"kind": "sphinx", "project": proj, "variant": variant},
                          "env.myst_config differs after the build from what it was at builder-inited")
+        if variant.startswith("parallel"):
+            ctx.count("sphinx:read-workers-forked" if r.get("parallel_read") else "sphinx:parallel-requested-but-serial")
         if variant == "serial":
             base[p] = r
             continue
